@@ -450,8 +450,17 @@ func c46InTier(quick bool, x c46Case) bool {
 	case x.FS == "dir":
 		return true
 	}
-	// thorough, Dir named by a non-canonical string
-	return x.Prefix == ""
+	// thorough, Dir named by a non-canonical string: the spelling of the Dir
+	// string is only seen by the FileSystem methods, so the request dimensions
+	// that are decided before the FileSystem is reached are reduced.
+	if x.Prefix != "" || x.Lock == "root+token" || x.Lock == "dst-locked" {
+		return false
+	}
+	if rel, _ := c46Relation("", x.Src, c46Header(x.Dest, "")); x.Method == "COPY" && x.Tree != "file" && rel == "destination-inside-source" {
+		// the 1000-directory self-copy
+		return x.Src == "/a" && x.Lock == "none" && x.Overwrite == "" && x.Depth == ""
+	}
+	return true
 }
 
 func TestVerif_C46(t *testing.T) {
@@ -464,9 +473,10 @@ func TestVerif_C46(t *testing.T) {
 			depths = c46Depths
 			fss = append(fss, c46FSsT...)
 		}
-		c.Rule(fmt.Sprintf("one COPY or MOVE request through Handler.ServeHTTP on a fresh tree: file system %q (mem = NewMemFS; dir = Dir(clean absolute path of a fresh directory); dir-… = Dir(the same fresh directory named by a string that is not in filepath.Clean form: trailing separator, doubled separator inside, \".\" segment inside%s); a new directory per case under the test's temporary root, removed afterwards)%s x method x /a in %q x request target %q x Destination in %q (rel: = relative reference, HOST = the request host, - = no header; includes the root collection \"/\", an ancestor of the source; /b and /b/ additionally with /b absent|file|dir holding a file) x Overwrite %q x Depth %q x lock state %q (infinite-depth locks made directly on the LockSystem; tokens presented in an untagged If list; dst-locked = a foreign lock on the destination location) x Prefix %q. Oracle on the tree read back through the FileSystem interface before/after: COPY — every path at or under /a keeps its kind and content (paths at or under a destination strictly inside the source are exempt); MOVE — /a and everything under it is unchanged, or /a is gone and the destination subtree equals the old source subtree. non-trivial = request answered 201/204 or changed the tree", fss, vx.Pick(c, "", ", trailing \"/.\", \"..\" segment, relative with leading \"./\""), vx.Pick(c, " — quick tier: on every Dir spelling only without Prefix and Depth header, lock states none and src+token, and the 1000-directory self-copy cases only for the plain request", " — the non-canonical Dir spellings without Prefix (the prefix is stripped before the FileSystem is reached), everything else as the full product"), c46Trees, c46Srcs, dests, c46Overs, depths, c46Locks, c46Prefixes))
+		c.Rule(fmt.Sprintf("one COPY or MOVE request through Handler.ServeHTTP on a fresh tree: file system %q (mem = NewMemFS; dir = Dir(clean absolute path of a fresh directory); dir-… = Dir(the same fresh directory named by a string that is not in filepath.Clean form: trailing separator, doubled separator inside, \".\" segment inside%s); a new directory per case under the test's temporary root, removed afterwards)%s x method x /a in %q x request target %q x Destination in %q (rel: = relative reference, HOST = the request host, - = no header; includes the root collection \"/\", an ancestor of the source; /b and /b/ additionally with /b absent|file|dir holding a file) x Overwrite %q x Depth %q x lock state %q (infinite-depth locks made directly on the LockSystem; tokens presented in an untagged If list; dst-locked = a foreign lock on the destination location) x Prefix %q. Oracle on the tree read back through the FileSystem interface before/after: COPY — every path at or under /a keeps its kind and content (paths at or under a destination strictly inside the source are exempt); MOVE — /a and everything under it is unchanged, or /a is gone and the destination subtree equals the old source subtree. non-trivial = request answered 201/204 or changed the tree", fss, vx.Pick(c, "", ", trailing \"/.\", \"..\" segment, relative with leading \"./\""), vx.Pick(c, " — quick tier: on every Dir spelling only without Prefix and Depth header, lock states none and src+token, and the 1000-directory self-copy cases only for the plain request", " — mem and dir: the full product; the non-canonical Dir spellings (only the FileSystem methods see the Dir string) without Prefix, with lock states none and src+token, and a COPY of a collection into itself (1000 nested directories) only as the plain request"), c46Trees, c46Srcs, dests, c46Overs, depths, c46Locks, c46Prefixes))
 		c.Assume("status codes, dead properties, lock bookkeeping and the fate of resources outside the source are not part of the oracle")
 		c.Assume("single requests on a quiescent server; no concurrent requests")
+		c.Assume("the empty Dir string (the current directory) is not among the Dir spellings: it would need a process-wide chdir")
 		tmp := c45TempRoot(c.T)
 		for i := 0; i < 64; i++ {
 			os.Mkdir(filepath.Join(tmp, fmt.Sprint(i)), 0o777)
